@@ -444,6 +444,9 @@ pub struct Config {
     pub checkpoint_interval: usize,
     pub checkpoint_file: Option<String>,
     pub expect_explicit_explore: bool,
+    /// `Builder::max_duration` in milliseconds (read against the simulated clock, hook H2)
+    #[serde(default)]
+    pub max_duration_ms: Option<u64>,
     /// harness-side cap on iterations (the run is abandoned as too_large beyond it)
     pub iter_cap: usize,
 }
@@ -458,6 +461,7 @@ impl Default for Config {
             checkpoint_interval: 20_000,
             checkpoint_file: None,
             expect_explicit_explore: false,
+            max_duration_ms: None,
             iter_cap: 20_000,
         }
     }
